@@ -440,6 +440,10 @@ class RefDriver(_Base):
         if self.cache._referents:
             left = sorted(self.sidx.get(id(s), -1) for s in self.cache._referents)
             self.fail("referent-diff", {"what": what, "still_indirect": left})
+        if self.cache._references:
+            # apply(): "Convert all indirect references to direct, clearing the cache."
+            left = sorted(str(self.bname(b)) for b in self.cache._references)
+            self.fail("referent-diff", {"what": what + ": the cache was not cleared", "blocks_left": left})
         for si, sym in enumerate(self.syms):
             want_b, want_e = self.model.ref[si]
             got_b = self.bname(sym.referent)
@@ -503,10 +507,6 @@ class RefDriver(_Base):
         c = self.cache
         m = self.model
         queried = ()
-        if m.open and (k not in ("gen_next", "gen_close") or len(m.open) > 1):
-            # something else runs while a get_references generator is suspended
-            self.ctx = "interleaved-" + m.tier
-            self.count("probe.op_while_generator_suspended")
         if k == "retarget":
             b, to = op["b"], op["to"]
             rs = m.refs(b)
@@ -618,6 +618,10 @@ class RefDriver(_Base):
                 continue
             self.begin(i, op)
             k = op["k"]
+            if self.model.open and (k not in ("gen_next", "gen_close") or len(self.model.open) > 1):
+                # something else runs while a get_references generator is suspended
+                self.ctx = "interleaved-" + self.model.tier
+                self.count("probe.op_while_generator_suspended")
             if k == "enter":
                 self.model.apply(op)
                 self.context()
@@ -2280,16 +2284,30 @@ def shrink_candidates(prop, scenario):
                 c = copy.deepcopy(sc)
                 c["setup"]["symbols"][i]["e"] = False
                 yield c
+        # drop a symbol / block nothing mentions, renumbering the rest
         used = {op.get("s") for op in ops}
-        if len(setup["symbols"]) > 1 and len(setup["symbols"]) - 1 not in used and not any(op["k"] == "new_symbol" for op in ops):
-            c = copy.deepcopy(sc)
-            c["setup"]["symbols"].pop()
-            yield c
+        if not any(op["k"] == "new_symbol" for op in ops):
+            for i in range(len(setup["symbols"])):
+                if i not in used and len(setup["symbols"]) > 1:
+                    c = copy.deepcopy(sc)
+                    del c["setup"]["symbols"][i]
+                    for op in c["ops"]:
+                        if op.get("s") is not None and op["s"] > i:
+                            op["s"] -= 1
+                    yield c
         usedb = {op.get(k) for op in ops for k in ("b", "to")} | {s["ref"] for s in setup["symbols"]}
-        if len(setup["blocks"]) > 1 and len(setup["blocks"]) - 1 not in usedb:
-            c = copy.deepcopy(sc)
-            c["setup"]["blocks"].pop()
-            yield c
+        for i in range(len(setup["blocks"])):
+            if i not in usedb and len(setup["blocks"]) > 1:
+                c = copy.deepcopy(sc)
+                del c["setup"]["blocks"][i]
+                for op in c["ops"]:
+                    for k in ("b", "to"):
+                        if op.get(k) is not None and op[k] > i:
+                            op[k] -= 1
+                for sy in c["setup"]["symbols"]:
+                    if sy["ref"] is not None and sy["ref"] > i:
+                        sy["ref"] -= 1
+                yield c
         for i, kind in enumerate(setup["blocks"]):
             if kind != "data":
                 c = copy.deepcopy(sc)
